@@ -17,6 +17,8 @@ from typing import Dict, List, Optional, Set
 from ..index import AnalysisError, call_name, norm, norm1, names_in
 from .c33 import check_owner_consistency
 from .common import enclosing, enclosing_all, fctx, in_body, is_name, method_calls, stmts
+from ..sem import Sem
+from .interlace import doubled_from, stride_stores
 from .spin import chain_parts, channel_of_name, stride2_slots
 
 LEVEL = "other"
@@ -79,6 +81,94 @@ def _guarded(pm, s: ast.stmt) -> Optional[str]:
     return None
 
 
+def double_spin_rule(ctx, r2) -> None:
+    """Every per-Wannier-function array is doubled with the even ↔ up / odd ↔ down interlace (shared with C05)."""
+    idx = ctx.index
+    ds = idx.function(SR, "System_R.double_spin")
+    S = Sem(idx, ds)
+    r2.instance(f"{ds.short}: matrices")
+    sc = [c for c in method_calls(ds.node, "set_R_mat") if len(c.args) >= 2]
+    if len(sc) != 1:
+        r2.expect(False, "set_R_mat of the doubled matrix located", ds, ds.node, "double_spin: `self.set_R_mat(key, NEW, …)` not found exactly once")
+    else:
+        c = sc[0]
+        lp = enclosing(S.pm, c, ast.For)
+        keyv = norm(c.args[0])
+        okloop = lp is not None and norm(lp.target) == keyv and norm(lp.iter) in ("self._XX_R", "self._XX_R.keys()", "list(self._XX_R)", "list(self._XX_R.keys())")
+        offs, src, how = doubled_from(S, c.args[1], S.du.node_of_expr(c), 2)
+        r2.check(okloop and offs == {(0, 0), (1, 1)} and src == f"self.get_R_mat({keyv})",
+                 "every matrix: both spin copies at offsets (0,0) and (1,1), nothing in the spin-off-diagonal blocks", ds, c,
+                 f"the doubled matrix is built as: {how} from `{src}` (over `{norm1(lp.iter) if lp is not None else None}`): the spin copies are not scattered at "
+                 f"offsets (0,0) and (1,1) of every real-space matrix (slots {sorted(offs) if offs else offs}): original bands are not each doubled")
+    r2.instance(f"{ds.short}: centres")
+    cst = [s_ for s_ in stmts(ds.node) if isinstance(s_, ast.Assign) and norm(s_.targets[0]) == "self.wannier_centers_cart"]
+    if not cst:
+        r2.expect(False, "centre assignment located", ds, ds.node, "double_spin: assignment of self.wannier_centers_cart not found")
+    else:
+        last = cst[-1]
+        v = last.value
+        okc = False
+        how = ""
+        if isinstance(v, ast.Call) and call_name(v) in ("np.repeat", "numpy.repeat"):
+            offs, src, how = doubled_from(S, v, S.cfg.node(last), 1)
+            okc = offs == {(0,), (1,)} and src is not None and src.split(".copy()")[0].split(".astype(")[0] == "self.wannier_centers_cart"
+        else:
+            st_ = stride_stores(S, "self.wannier_centers_cart")
+            offs = {o for _, o, _ in st_}
+            srcs = {S.rnorm(vv, S.cfg.node(ss)) for ss, _, vv in st_}
+            how = f"stride-2 stores at offsets {sorted(offs)} of {sorted(srcs)}"
+            okc = offs == {(0,), (1,)} and srcs <= {"self.wannier_centers_cart.copy()", "np.copy(self.wannier_centers_cart)", "np.array(self.wannier_centers_cart)"} and len(srcs) == 1
+        r2.check(okc, "centres: (c0, c0, c1, c1, …) — each centre at an even and the following odd position", ds, last,
+                 f"the centres are doubled as: {how}: not every original centre appears at offsets 0 and 1 (interlaced)")
+    pc = [c for c in method_calls(ds.node, "set_spin_pairs") if c.args]
+    okp = False
+    if len(pc) == 1 and isinstance(pc[0].args[0], (ast.ListComp, ast.GeneratorExp)) and len(pc[0].args[0].generators) == 1:
+        lc = pc[0].args[0]
+        g = lc.generators[0]
+        if isinstance(lc.elt, ast.Tuple) and len(lc.elt.elts) == 2 and isinstance(g.target, ast.Name) and isinstance(g.iter, ast.Call) and call_name(g.iter) == "range":
+            from ..algebra import Rat, to_rat
+            v_ = g.target.id
+            at = S.du.node_of_expr(pc[0])
+
+            def env(x):
+                if isinstance(x, ast.Name):
+                    if x.id == v_:
+                        return Rat.sym("v")
+                    r_ = S.rnorm(x, at)
+                    return Rat.sym("N") if r_ == "self.num_wann" else Rat.sym(r_) if r_ == x.id else None
+                if norm(x) == "self.num_wann":
+                    return Rat.sym("N")
+                return None
+            try:
+                a_, b_ = to_rat(lc.elt.elts[0], env), to_rat(lc.elt.elts[1], env)
+                ra = [to_rat(S.resolve(x, at), env) for x in g.iter.args]
+                two, one, zero, N, vv = Rat.const(2), Rat.const(1), Rat.const(0), Rat.sym("N"), Rat.sym("v")
+                form1 = len(ra) == 1 and ra[0].equals(N) and a_.equals(two * vv) and b_.equals(two * vv + one)
+                form2 = len(ra) == 3 and ra[0].equals(zero) and ra[1].equals(two * N) and ra[2].equals(two) and a_.equals(vv) and b_.equals(vv + one)
+                okp = form1 or form2
+            except AnalysisError:
+                okp = False
+    r2.check(okp, "spin pairs registered as (2i, 2i+1), i < number of spinless functions", ds, pc[0] if pc else ds.node,
+             "double_spin registers spin pairs that do not follow the even/odd interlace it has just written", stmt="set_spin_pairs")
+    r2.check(len([c for c in method_calls(ds.node, "double_spin") if norm(c.func.value) == "self.rvec"]) == 1 and bool(method_calls(ds.node, "clear_cached_wcc")),
+             "centre shifts doubled and caches cleared", ds, ds.node, "double_spin does not double the R-vector shifts / clear cached centres", stmt="rvec.double_spin")
+    rd = idx.function(RV, "Rvectors.double_spin")
+    RS = Sem(idx, rd)
+    for side in ("left", "right"):
+        r2.instance(f"{rd.short}: shifts_{side}_red")
+        att = f"self.shifts_{side}_red"
+        asg = [s_ for s_ in stmts(rd.node) if isinstance(s_, ast.Assign) and norm(s_.targets[0]) == att]
+        ok = False
+        how = "no assignment"
+        if asg:
+            offs, src, how = doubled_from(RS, asg[-1].value, RS.cfg.node(asg[-1]), 1)
+            ok = offs == {(0,), (1,)} and src is not None and src.split(".copy()")[0] == att
+        r2.check(ok, f"{side} shifts doubled with the same interlace", rd, asg[-1] if asg else rd.node,
+                 f"Rvectors.double_spin: `{att}` is doubled as: {how} — not each original shift at offsets 0 and 1")
+    r2.check(bool([c for c in method_calls(rd.node, "clear_cached")]), "Rvectors.double_spin clears the cached R-vector quantities", rd, rd.node,
+             "Rvectors.double_spin does not clear its caches", stmt="clear_cached")
+
+
 def run(ctx) -> None:
     idx = ctx.index
 
@@ -136,32 +226,7 @@ def run(ctx) -> None:
     # ---------------------------------------------------------------- R25.2
     r2 = ctx.rule("R25.2", "interlace convention: even ↔ up ↔ 0, odd ↔ down ↔ 1, on both axes", min_instances=14)
     # (a) System_R.double_spin / Rvectors.double_spin
-    for rel, q, arrs in ((SR, "System_R.double_spin", ("XX_new", "self.wannier_centers_cart")),
-                         (RV, "Rvectors.double_spin", ("shifts_left_red_new", "shifts_right_red_new"))):
-        f = idx.function(rel, q)
-        pm = fctx(f)[2]
-        seen = set()
-        for s in stmts(f.node):
-            if isinstance(s, ast.Assign) and isinstance(s.targets[0], ast.Subscript) and norm(s.targets[0].value) in arrs:
-                sl = stride2_slots(s.targets[0])
-                if not sl:
-                    continue
-                seen.add(norm(s.targets[0].value))
-                r2.instance(f"{f.short}: {norm1(s, 70)}")
-                lp = enclosing(pm, s, ast.For)
-                okl = lp is not None and norm(lp.iter) == "range(2)" and isinstance(lp.target, ast.Name) and \
-                    all(x == lp.target.id for x in sl)
-                r2.check(okl, "both spin copies i=0,1 are written at offset i on every Wannier axis", f, s,
-                         f"`{norm1(s)}`: the spin copies are not scattered at offsets i::2 for i in range(2) on every axis "
-                         f"(slots {sl}): original bands are not each doubled")
-        if seen != set(arrs):
-            r2.violation(f, f.node, f"{q} no longer doubles {sorted(set(arrs) - seen)}", stmt=f"missing {sorted(set(arrs) - seen)}")
-    ds = idx.function(SR, "System_R.double_spin")
-    t = norm(ds.node).replace(" ", "")
-    r2.check("self.set_spin_pairs([(2*i,2*i+1)foriinrange(num_wann_old)])" in t, "spin pairs registered as (2i, 2i+1)", ds, ds.node,
-             "double_spin registers spin pairs that do not follow the even/odd interlace it has just written", stmt="set_spin_pairs")
-    r2.check("self.rvec.double_spin()" in t and "self.clear_cached_wcc()" in t, "centre shifts doubled and caches cleared", ds, ds.node,
-             "double_spin does not double the R-vector shifts / clear cached centres", stmt="rvec.double_spin")
+    double_spin_rule(ctx, r2)
     # (b) SystemSOC.set_soc_axis: block (a,b) ↔ pauli_rotated[a,b]
     f = idx.function(SOCS, "SystemSOC.set_soc_axis")
     pm = fctx(f)[2]
